@@ -82,8 +82,15 @@ def verify(prop, mdir, sid):
         for t, f in placed:
             os.remove(os.path.join(wt, t, f))
         rcs, outs = sh(["go", "test", "-vet=off", "-count=1", "./pkg/..."], cwd=wt)
-        if rcs != 0:  # the suite has a load-sensitive store test: one retry
-            rcs, outs = sh(["go", "test", "-vet=off", "-count=1", "./pkg/..."], cwd=wt)
+        for _ in range(3):
+            if rcs == 0:
+                break
+            # the store / southbound tests are load-sensitive: re-run only the packages that failed, alone
+            import re as _re
+            failed = sorted(set(_re.findall(r"^FAIL\s+(github.com/onosproject/onos-config/\S+)", outs, _re.M)))
+            if not failed:
+                break
+            rcs, outs = sh(["go", "test", "-vet=off", "-count=1", "-p", "1"] + [f.replace("github.com/onosproject/onos-config", ".") for f in failed], cwd=wt)
         res["suite_with_change"] = "pass" if rcs == 0 else "FAIL"
         res["demo_cmd"] = " ".join(democmd)
         res["demo_placed_in"] = [t for t, _ in placed]
